@@ -179,7 +179,7 @@ func (c *cluster) done() *com.Packet {
 	if len(c.data) == 0 {
 		return nil
 	}
-	if uint16(len(c.data)) > (c.max + c.e) {
+	if uint16(len(c.data))+c.e > c.max {
 		sort.Sort(c)
 		n := c.data[0]
 		for x := 1; x < len(c.data); x++ {
